@@ -251,7 +251,7 @@ func TestVerif_C01(t *testing.T) {
 			continue
 		}
 		c01Case(res, agents, idx, nil)
-		if res.nViol() > 60 {
+		if res.giveUp(60) {
 			break
 		}
 	}
@@ -380,7 +380,7 @@ func c01ConfiguredPeer(res *vResult) {
 		}
 		cp.close()
 		a.stop(vStopWatchdog)
-		if res.nViol() > 60 {
+		if res.giveUp(60) {
 			break
 		}
 	}
